@@ -583,7 +583,10 @@ func (in *icInst) check(c *mc.Ctx, o icOracle, prop string, path []string) {
 		want := map[string]int{}
 		for _, id := range st.expiry {
 			from := strings.Split(id, "-")[0]
-			_, chain, _, _ := pb.ParseFullServiceID(from)
+			bxh, chain, _, _ := pb.ParseFullServiceID(from)
+			if bxh != fmt.Sprint(fix.ChainID) {
+				chain = contracts.DEFAULT_UNION_PIER_ID // the source lives on another BitXHub: told through the union pier
+			}
 			want[chain+"|"+id]++
 			c.Add("timeouts_expected", 1)
 		}
